@@ -84,6 +84,9 @@ ImputeClauses(c, j, sub) ==
 SageCall(c) ==
    LET kind == Tr.kind  a == Tr.alpha  n == c.n
        NL == Len(c.losses)  NI == Len(c.imputes)
+       grp(j) == SelectSeq(c.losses, LAMBDA e : e.ai = j)
+       \* exactly one loss evaluation per coalition: the loss *of the mean* prediction
+       oneLoss == NI = D /\ Len(grp(0)) = 2 /\ \A j \in 1..D : Len(grp(j)) = 1
        valueShape == /\ NL = D + 2 /\ NI = D /\ Len(c.models) >= 1
                      /\ c.losses[1].ai = 0 /\ c.losses[2].ai = 0
                      /\ \A j \in 1..D : c.losses[2 + j].ai = j
@@ -107,6 +110,7 @@ SageCall(c) ==
       /\ Ck("contract.loss_calls", NL = D + 2)
       /\ Ck("contract.impute_calls", NI = D /\ \A j \in 1..NI : c.imputes[j].n = n)
       /\ Contract(c)
+      /\ Ck("sage.one_loss_per_coalition", oneLoss)
       /\ IF ~valueShape THEN PrintT(<<"SKIP", "sage.values", tid, l>>)
          ELSE /\ Ck("sage.subset_complement", chainOK)
               /\ IF ~chainOK THEN TRUE
@@ -145,6 +149,7 @@ PfiCall(c) ==
       /\ Ck("contract.loss_calls", NL = 1 + D * n)
       /\ Ck("contract.impute_calls", NI = D /\ \A j \in 1..NI : c.imputes[j].n = n)
       /\ Contract(c)
+      /\ Ck("pfi.one_original_loss", NI = D => Len(grp(0)) = 1)
       /\ IF ~valueShape THEN PrintT(<<"SKIP", "pfi.values", tid, l>>)
          ELSE /\ Ck("pfi.single_feature_subset", \A j \in 1..D : c.imputes[j].subset = <<j>>)
               /\ Ck("pfi.importance", SameMV(imp2, MVRec(c.post.imp, c.post.impn)))
